@@ -101,6 +101,27 @@ class Maker:
     def __call__(self, *args):
         route = self.routes[self.n % len(self.routes)]
         self.n += 1
+        if route in ("@retuned", "@subclass") and not (len(args) == 2 and args[0] >= 1):
+            route = None
+        if route == "@retuned":
+            # `order` and `peak` are documented public attributes: an object built with other values and retuned IS the window
+            # with the new values
+            o = self.cls(args[0] + 3, min(0.9, args[1] / 2 + 0.05))
+            o.get_impulse_response(7)
+            o.order, o.peak = args
+            return o
+        if route == "@subclass":
+            # a user's subclass that sets the documented attributes itself after the base constructor ran
+            base = self.cls
+
+            class UserGamma(base):
+                aliases = set()
+
+                def __init__(self, order, peak):
+                    super().__init__()
+                    self.order, self.peak = order, peak
+
+            return UserGamma(*args)
         return self.cls(*args) if route is None else self.family.from_alias(route, *args)
 
 
@@ -119,7 +140,7 @@ def window_classes():
         pass
     np_cls = {k: Maker(c, WINDOW_ALIASES[k]) for k, c in dict(bartlett=filters.BartlettWindow, blackman=filters.BlackmanWindow,
                                                                hamming=filters.HammingWindow, hann=filters.HannWindow).items()}
-    return np_cls, Maker(filters.GammaWindow, WINDOW_ALIASES["gamma"])
+    return np_cls, Maker(filters.GammaWindow, list(WINDOW_ALIASES["gamma"]) + ["@retuned", "@subclass"])
 
 
 def util_mod():
@@ -338,6 +359,12 @@ def gen_circshift(ctx):
     cases.append(mk(5, 3, "omitted", None, 11, True, "c128"))
     cases.append(mk(0, 0, "omitted", None, 1, True, "c128"))  # D = 0
     cases.append(mk(3, 0, "given", 0, 1, True, "c128"))  # D = 0
+    # shifts that exceed the DFT size by twelve and more orders of magnitude (the shift is an integer: only shift mod D
+    # matters, exactly - a phase ramp evaluated at the unreduced shift loses all its digits)
+    cases.append(mk(8, 0, "given", 400, 2 ** 45 * 400 + 5, True, "c128"))
+    cases.append(mk(16, 3, "omitted", None, 10 ** 15 + 7, False, "c128"))
+    cases.append(mk(5, 0, "given", 7, -(10 ** 18) - 3, True, "c64"))
+    cases.append(mk(12, 2, "none", None, 3 * 10 ** 12 + 1, True, "f64"))
     while len(cases) < n:
         ln = r.choice([0, 1, 2, 3, 4, 5, 8, 16, r.randint(0, 40)])
         start = r.choice([0, 0, 1, 2, r.randint(0, 24)])
